@@ -23,7 +23,7 @@ TEXT = {
     "C17": "full proof on the model: first clause for whole documents (C17_only_lt_escaped); second clause for every input and every prefix-closed predicate against a WHATWG data-state tokenizer fragment (C17_no_rejected_start_renderDoc, no side condition); tie: model renderer+filter on the implementation's tree, filterRaw through the hook; oracle uses x/net/html's tokenizer",
     "C18": "full proof: the explicit-stack Walk equals the recursive traversal for every tree and every callback pair over any user state (run_refines_spec), cursor invariant at every callback (walk_cursors_ok), visit-once (visit_once); tie: event traces of the extracted model vs walk.go on the implementation's trees under random policies",
     "C19": "generic schedule-independence / race-freedom theorem (Interleave) whose premise is instantiated by an effect summary regenerated from /repo's typed AST on every run (no global writes, no stores through shared tree/renderer types on the read-only side), plus a -race build running the concurrent workload; the classification's soundness and the Go memory model are trusted",
-    "C20": "full proof of clause 1 on the formatWriter model (sticky first error, no write after it, healthy writer gives no error); clause 2 proved end to end on a slice (one-line text paragraphs: formatting preserves the rendering and is idempotent, SliceFormat) and otherwise decided by the oracle on generated canonical documents; tie: formatter model on the implementation's tree = implementation's bytes",
+    "C20": "full proof of clause 1 on the formatWriter model (sticky first error, no write after it, healthy writer gives no error); clause 2 proved end to end on multi-block documents of text paragraphs, ATX headings, thematic breaks and fenced code (C20_blocks: formatting has the stated output, preserves the rendering and is idempotent) and otherwise decided by the oracle on generated canonical documents; tie: formatter model on the implementation's tree = implementation's bytes",
 }
 CATEGORY = {"C19": "other"}
 TECH = {
